@@ -333,6 +333,7 @@ func c05CorruptWith(t *rapid.T, data []byte, vf *vformat.File) string {
 				0xFFFFC000, 0xFFFFC020, 0xFFFFBFE0, 0xFFFFFFE0, 0xFFFFFFC0, 0x7FFFFFE0, 0x7FFFC020}),
 			rapid.Uint32Range(0, uint32(len(data))+64),
 			rapid.Uint32Range(0xFFFF0000, 0xFFFFFFFF), // where 32-bit offset arithmetic wraps around
+			rapid.Uint32Range(0xFFFFFFC0, 0xFFFFFFFF), // ... by adding a small field offset
 		).Draw(t, label)
 	}
 	recOff := func(label string) uint32 {
